@@ -90,3 +90,41 @@ func ZZ_C34_sequential() {
 	}
 	vrt.Reach("end")
 }
+
+// ZZ_C34_fifo_among_equals: longer interleavings of push/pop/remove with ONE shared symbolic
+// priority: transactions of equal priority leave in insertion order however pushes, pops and
+// removals interleave.
+func ZZ_C34_fifo_among_equals() {
+	q := NewPriorityQueue()
+	prio := vrt.U64("prio")
+	var ref []int // extrinsic ids in insertion order
+	next := 0
+	nops := vrt.Param("fifo_ops", 7)
+	for i := 0; i < nops; i++ {
+		sfx := string(rune('0' + i))
+		switch vrt.Choice("op"+sfx, 3) {
+		case 0:
+			ext := types.Extrinsic{0xf0, byte(next)}
+			_, err := q.Push(NewValidTransaction(ext, &Validity{Priority: prio}))
+			vrt.Assert("push_ok", err == nil)
+			ref = append(ref, next)
+			next++
+		case 1:
+			got := q.Pop()
+			if len(ref) == 0 {
+				vrt.Assert("empty_yields_nil", got == nil)
+				continue
+			}
+			vrt.Assert("fifo_among_equal_priorities", got != nil && len(got.Extrinsic) == 2 && int(got.Extrinsic[1]) == ref[0])
+			ref = ref[1:]
+		case 2: // remove the oldest queued transaction
+			if len(ref) == 0 {
+				continue
+			}
+			q.RemoveExtrinsic(types.Extrinsic{0xf0, byte(ref[0])})
+			ref = ref[1:]
+		}
+		vrt.Assert("length_matches", q.Len() == len(ref))
+	}
+	vrt.Reach("end")
+}
